@@ -150,12 +150,18 @@ class VCSAPI:
     def status(self, required_files: typ.Set[str]) -> typ.List[str]:
         """Get status lines."""
         status_output = self('status')
-        status_items  = [line.split(" ", 1) for line in status_output.splitlines()]
+        # The status code is in fixed columns ("XY path" for git, "C path" for hg)
+        # and may start with a blank; a rename is reported as "old -> new".
+        status_items = [
+            (line[:2].strip(), filepath.strip())
+            for line in status_output.splitlines()
+            for filepath in (line[2:].split(" -> ") if line[:2].strip().startswith(("R", "C")) else [line[2:]])
+        ]
 
         return [
-            filepath.strip()
+            filepath
             for status, filepath in status_items
-            if filepath.strip() in required_files or status != "??"
+            if filepath in required_files or status != "??"
         ]
 
     def ls_tags(self) -> typ.List[str]:
